@@ -63,6 +63,7 @@ type scenario struct {
 	Reneg    bool // client under test allows renegotiation
 	Staple   bool // server certificate carries OCSP staple and SCTs
 	NoTicket bool
+	EMS      bool   // client under test offers the extended master secret
 	Insecure bool   // client under test does not verify the server (scanner configuration)
 	Synth    string // "dhe": the server flight is built by hand (no zcrypto or Go server negotiates DHE)
 }
@@ -108,6 +109,7 @@ func (sc *scenario) eutClient(cache *frozenCache, keylog io.Writer) *ztls.Config
 		c.Renegotiation = ztls.RenegotiateFreelyAsClient
 	}
 	c.InsecureSkipVerify = sc.Insecure
+	c.ExtendedMasterSecret = sc.EMS
 	c.ForceSuites = sc.Synth != "" // the client-only suites are offered only when forced
 	return c
 }
@@ -177,6 +179,9 @@ func scenarios() []scenario {
 	n := len(out)
 	for _, key := range []string{"0303/c02f", "0303/c02b", "0303/002f", "0301/c013", "0304/1301", "0304/1303"} {
 		add(scenario{Name: "+insecure", Insecure: true}, key)
+	}
+	for _, key := range []string{"0303/c02f", "0303/002f", "0301/c013"} {
+		add(scenario{Name: "+ems", EMS: true}, key)
 	}
 	kept := out[:n]
 	for _, s := range out[n:] {
@@ -669,8 +674,15 @@ func chunksHex(chunks [][]byte) []string {
 	return out
 }
 
+// blockedSeen counts blocking-rule witnesses of this child: each one costs the full budget and leaves
+// goroutines parked forever, so the shard stops after a few (the witnesses are on disk by then).
+var blockedSeen int
+
 // judge turns an outcome into violations.
 func judge(c *core.Ctx, caseID string, input map[string]any, chunks [][]byte, o replayOutcome) {
+	if o.blocked != "" || o.postBlocked != "" {
+		blockedSeen++
+	}
 	full := func() map[string]any {
 		in := map[string]any{}
 		for k, v := range input {
@@ -681,7 +693,7 @@ func judge(c *core.Ctx, caseID string, input map[string]any, chunks [][]byte, o 
 		return in
 	}
 	for _, pi := range append(append([]*core.PanicInfo(nil), o.panics...), o.postPanics...) {
-		c.Violation(pi.Key, pi.Value+"\n"+pi.Stack, caseID, full())
+		c.Violation(panicKey(pi), pi.Value+"\n"+pi.Stack, caseID, full())
 	}
 	if o.blocked != "" {
 		c.Violation("blocked-after-transport-close:"+o.blocked, "a call on the endpoint had not returned 20 s after the transport was closed\n"+o.blockedDump, caseID, full())
@@ -697,8 +709,8 @@ func judge(c *core.Ctx, caseID string, input map[string]any, chunks [][]byte, o 
 func runC32(c *core.Ctx) {
 	scs := scenarios()
 	c.Count("scenarios", len(scs))
-	plansPer := c.Pick(110, 3000)
-	randomPer := c.Pick(15, 400)
+	plansPer := c.Pick(110, 1500)
+	randomPer := c.Pick(15, 200)
 	for si := range scs {
 		sc := &scs[si]
 		if si%c.NShards != c.Shard {
@@ -710,7 +722,7 @@ func runC32(c *core.Ctx) {
 		var t *transcript
 		var err error
 		if pi := core.Guard(func() { t, err = sc.record() }); pi != nil {
-			c.Violation("recording-"+pi.Key, pi.Value+"\n"+pi.Stack, sc.Name+"#record", map[string]any{"scenario": sc.Name})
+			c.Violation("recording-"+panicKey(pi), pi.Value+"\n"+pi.Stack, sc.Name+"#record", map[string]any{"scenario": sc.Name})
 			continue
 		}
 		if err != nil {
@@ -751,6 +763,10 @@ func runC32(c *core.Ctx) {
 		}
 
 		for pi := 0; pi < plansPer+randomPer; pi++ {
+			if blockedSeen >= 3 {
+				c.Note("C32: shard stopped after %d blocked calls (each is reported as a violation)", blockedSeen)
+				return
+			}
 			id := fmt.Sprintf("%s#%d", sc.Name, pi)
 			if c.OnlyCase != "" && c.OnlyCase != id {
 				continue
